@@ -404,6 +404,25 @@ func (r *Run) c04Provenance(s *mateShape) {
 						}
 					}
 				}
+				if !okG {
+					// the position of the match was handed out of the scan and the element re-read there
+					if mc, recs, okM := elemAtMatchedIndex(f); okM {
+						for _, g := range mc {
+							x, y, op, ok := CmpFact(g.Cond, g.True)
+							if !ok || op != token.EQL {
+								continue
+							}
+							a, b := tm.Of(x), tm.Of(y)
+							for _, pr := range [][2]*Term{{a, b}, {b, a}} {
+								for rec := range recs {
+									if fieldChainOn(pr[0], rec, "Id") && fieldChainOnWeb(pr[1], s.chosen, "Link", end, "Id") {
+										okG = true
+									}
+								}
+							}
+						}
+					}
+				}
 				// the list searched is the child's own node list (a local built by nodeInsert)
 				okList := true
 				for _, a := range ft.Args[0].Alternatives() {
